@@ -1,7 +1,7 @@
 import ZChain.Drv.Util
 import ZChain.Model.ZcnLine
 /-! Line driver for C18 (bridge mints): the bridge-contract model `Model/Zcn.lean` (code as it is:
-`strict := false`) over the protocol of `Model/ZcnLine.lean`
+`strict := true`) over the protocol of `Model/ZcnLine.lean`
 (`init …` | `mint …` | `burn …` | `addauth …` | `delauth …`). -/
 namespace ZChain.Drv.C18
 
